@@ -25,6 +25,10 @@ CALC_TAB = z3.Function("calc_tab", z3.IntSort(), z3.RealSort(), z3.RealSort(), R
 SYMS = ["C", "Au", "Si"]
 
 
+def _setup():
+    patch.patch(I)
+
+
 def _history(kind, steps, nsym):
     rp = R_H(kind)
 
@@ -62,6 +66,8 @@ def R_H(kind):
         g = (min(max(int(V[f'g{t}x']), 8), 40), min(max(int(V[f'g{t}y']), 8), 40))
         grids.append(g)
     if len(set(grids)) == 1: grids[-1] = (grids[-1][0] + 4, grids[-1][1] + 6)
+    # also exercise changes along one axis only
+    grids = grids + [(grids[-1][0], grids[-1][1] * 2), (grids[-1][0] * 2, grids[-1][1] * 2)]
     pot = abtem.Potential(atoms, gpts=grids[0], slice_thickness=2, projection=KIND)
     for g in grids:
         pot.gpts = g
@@ -79,5 +85,5 @@ def cases(tier):
     out = []
     for kind in ("infinite", "finite"):
         for steps in (2, 3) if q else (2, 3, 4):
-            out.append(Case(f"history.{kind}.{steps}", _history(kind, steps, 2 if q else 3), max_paths=5000, budget_s=240 if q else 1500))
+            out.append(Case(f"history.{kind}.{steps}", _history(kind, steps, 2 if q else 3), setup=_setup, max_paths=5000, budget_s=240 if q else 1500))
     return out
